@@ -11,8 +11,13 @@ Open Scope Z_scope.
 Lemma STACK_is_0 : STACK = 0%N. Proof. reflexivity. Qed.
 Lemma TEMP_is_1 : TEMP = 1%N. Proof. reflexivity. Qed.
 
-Lemma ea_stack s sp p k : frame_ok s sp -> ea s STACK (stack_offset p) k = k (slot_addr sp p).
-Proof. intros (H & _). unfold ea, need. rewrite STACK_is_0, H. reflexivity. Qed.
+Lemma ea_stack s sp p k : frame_ok s sp -> slot_ok p -> ea s STACK (stack_offset p) k = k (slot_addr sp p).
+Proof.
+  intros F P. destruct (slot_addr_facts sp p (proj2 F) P) as (_ & _ & _ & LE & _).
+  destruct F as (H & _). unfold ea, need. rewrite STACK_is_0, H. fold (slot_addr sp p).
+  destruct (in_stack (slot_addr sp p)); [|reflexivity].
+  destruct (Z.ltb_spec (slot_addr sp p) sp); [lia|reflexivity].
+Qed.
 
 Section Steps.
 Variable im : image.
@@ -22,9 +27,9 @@ Hypothesis F : frame_ok s sp.
 Lemma step_MOV a b : step im (MOV a b) s = Next (rset s a (rget s b)).
 Proof. reflexivity. Qed.
 Lemma step_MOVL_slot a p : slot_ok p -> step im (MOVL a STACK (stack_offset p)) s = Next (rset s a (sget s sp p)).
-Proof. intros P. cbn [step]. rewrite (ea_stack s sp) by exact F. unfold withm. now rewrite mload_slot. Qed.
+Proof. intros P. cbn [step]. rewrite (ea_stack s sp) by (exact F || assumption). unfold withm. now rewrite mload_slot. Qed.
 Lemma step_MOVS_slot a p : slot_ok p -> step im (MOVS a STACK (stack_offset p)) s = Next (sset s sp p (rget s a)).
-Proof. intros P. cbn [step]. rewrite (ea_stack s sp) by exact F. unfold withm. now rewrite mstore_slot. Qed.
+Proof. intros P. cbn [step]. rewrite (ea_stack s sp) by (exact F || assumption). unfold withm. now rewrite mstore_slot. Qed.
 
 Lemma step_arith_rr f a b x y :
   rget s a = Some x -> rget s b = Some y ->
@@ -34,14 +39,14 @@ Lemma step_arith_rm f a p x y :
   slot_ok p -> rget s a = Some x -> sget s sp p = Some y ->
   arith_rm f s a STACK (stack_offset p) = Next (set_flags (rset s a (Some (wrap (f x y)))) None).
 Proof.
-  intros P A B. unfold arith_rm, need. rewrite A, (ea_stack s sp) by exact F. unfold withm.
+  intros P A B. unfold arith_rm, need. rewrite A, (ea_stack s sp) by (exact F || assumption). unfold withm.
   rewrite mload_slot by auto. now rewrite B.
 Qed.
 Lemma step_arith_mr f p b x y :
   slot_ok p -> sget s sp p = Some x -> rget s b = Some y ->
   arith_mr f s STACK (stack_offset p) b = Next (set_flags (sset s sp p (Some (wrap (f x y)))) None).
 Proof.
-  intros P A B. unfold arith_mr. rewrite (ea_stack s sp) by exact F. unfold withm, need.
+  intros P A B. unfold arith_mr. rewrite (ea_stack s sp) by (exact F || assumption). unfold withm, need.
   rewrite mload_slot by auto. rewrite A, B. now rewrite mstore_slot.
 Qed.
 End Steps.
@@ -238,7 +243,7 @@ Proof.
   - cbn [exec_straight step]. eexists; split; [reflexivity|]. split; [rd; reflexivity|pres].
   - destruct (fits_i32 i) eqn:FI.
     + cbn [exec_straight step]. replace (fits32 i) with true by (symmetry; exact FI).
-      rewrite (ea_stack s sp) by exact F. unfold withm. rewrite mstore_slot by auto.
+      rewrite (ea_stack s sp) by (exact F || assumption). unfold withm. rewrite mstore_slot by auto.
       eexists; split; [reflexivity|]. split; [rd; reflexivity|pres].
     + cbn [exec_straight]. change (step im (MOVI TEMP i) s) with (Next (rset s TEMP (Some i))). cbv iota beta.
       rewrite (step_MOVS_slot im _ sp) by (frame || exact T).
@@ -257,13 +262,13 @@ Proof.
   destruct t1 as [r1|p1], t2 as [r2|p2]; cbn [lget loc_ok] in *; cbn [compare exec_straight];
     [cbn [step] | cbn [step] | cbn [step] | ].
   - unfold need. rewrite A, B. eexists; split; [reflexivity|]. repeat split; try reflexivity; try apply F.
-  - unfold need. rewrite A, (ea_stack s sp) by exact F. unfold withm. rewrite mload_slot by auto. rewrite B.
+  - unfold need. rewrite A, (ea_stack s sp) by (exact F || assumption). unfold withm. rewrite mload_slot by auto. rewrite B.
     eexists; split; [reflexivity|]. repeat split; try reflexivity; try apply F.
-  - rewrite (ea_stack s sp) by exact F. unfold withm, need. rewrite mload_slot by auto. rewrite A, B.
+  - rewrite (ea_stack s sp) by (exact F || assumption). unfold withm, need. rewrite mload_slot by auto. rewrite A, B.
     eexists; split; [reflexivity|]. repeat split; try reflexivity; try apply F.
   - rewrite (step_MOVL_slot im s sp F) by exact T1.
     assert (F1 : frame_ok (rset s TEMP (sget s sp p1)) sp) by frame.
-    rewrite A in *. cbn [step]. unfold need. rewrite rget_rset_same, (ea_stack _ sp) by exact F1. unfold withm.
+    rewrite A in *. cbn [step]. unfold need. rewrite rget_rset_same, (ea_stack _ sp) by (exact F1 || assumption). unfold withm.
     rewrite mload_slot by auto. rewrite sget_rset, B.
     eexists; split; [reflexivity|]. split; [reflexivity|].
     split; [|split; [reflexivity|split; [reflexivity|frame]]].
@@ -275,7 +280,7 @@ Theorem x86_compare_zero_ok s sp t a :
 Proof.
   intros F T A. destruct t as [r|p]; cbn [lget loc_ok] in *; cbn [compare_immediate exec_straight step].
   - unfold need. cbn [fits32 Z.leb Z.compare andb]. now rewrite A.
-  - cbn [fits32 Z.leb Z.compare andb]. rewrite (ea_stack s sp) by exact F. unfold withm, need.
+  - cbn [fits32 Z.leb Z.compare andb]. rewrite (ea_stack s sp) by (exact F || assumption). unfold withm, need.
     rewrite mload_slot by auto. now rewrite A.
 Qed.
 Lemma x86_jcc_step sort l s x y :
@@ -319,7 +324,7 @@ Proof.
   - cbn [exec_straight step]; unfold need.
     rewrite A. cbv iota beta. rewrite A', D'. cbv iota beta.
     assert (F1 : frame_ok (rset s 5%N (Some (if a <? 0 then -1 else 0))) sp) by frame.
-    rewrite (ea_stack _ sp) by exact F1. unfold withm. rewrite mload_slot by auto.
+    rewrite (ea_stack _ sp) by (exact F1 || assumption). unfold withm. rewrite mload_slot by auto.
     rewrite sget_rset, B. cbv iota beta. rewrite Z.eqb_refl, Hz, Ho. reflexivity.
 Qed.
 
